@@ -15,7 +15,7 @@ func init() {
 			"R2 position independence (shared with C16/R2): no branch and no non-position field depends on Token.Pos/End/Lexer.pos. " +
 			"R3 the list entry points run the single-statement production (C08/R4) in a loop that skips empty statements and stops only at <eof> or after a statement not followed by ';' (loop shape via TKAI). " +
 			"Decides: equal treatment of the two statement terminators and shared productions. Does not decide: equality of the trees up to a shift as a theorem.",
-		Rules: []ruleFn{ruleC11R1, ruleC16R2, ruleC08R4, ruleC11R3, ruleC14R8, ruleC05R1Only},
+		Rules: []ruleFn{ruleC11R1, ruleC16R2, ruleC08R4, ruleC11R3, ruleC14R8, ruleC05R1Only, ruleC11R4},
 	})
 }
 
@@ -210,5 +210,153 @@ func ruleC11R3(w *World, r *Report) {
 	}
 	if n < 3 {
 		r.errorf("expected three instances of the statement-list loop, found %d", n)
+	}
+}
+
+// ruleC11R4: the parser carries no state from one production to the next. The mutable state of a parse is the byte
+// cursor, the current token, the two dot-identifier flags of the lexer, and the error list; each has its own rules
+// (C13/R1, C14/R5, C09/R3). Any other field of Parser or Lexer that a method writes is a mode or a counter, and a mode
+// that is not left on some return path changes how every later statement of a list — and every later expression of the
+// same statement — is read.
+func ruleC11R4(w *World, r *Report) {
+	const rule = "C11/R4"
+	r.rule(rule, "state inventory of Parser and Lexer: every store to a field of *Parser / *Lexer outside the constructors is to Parser.Lexer, Parser.errors, Lexer.pos, Lexer.Token (or a field of it), Lexer.dotIdent or Lexer.lastTokenKind; any other field that is written must be an integer counter that is changed only by constant steps and whose net change is zero on every path from the entry of the writing function to each of its returns (a mode that is entered is left again)", 1)
+	known := map[string]bool{"Parser.Lexer": true, "Parser.errors": true, "Lexer.pos": true, "Lexer.Token": true, "Lexer.dotIdent": true, "Lexer.lastTokenKind": true, "Lexer.File": true}
+	type fkey struct{ owner, field string }
+	stores := map[fkey][]*ssa.Store{}
+	nknown := 0
+	for _, fn := range w.ModFns {
+		if fnPkgPath(fn) != modRoot || fn.Blocks == nil {
+			continue
+		}
+		for _, b := range fn.Blocks {
+			for _, in := range b.Instrs {
+				st, ok := in.(*ssa.Store)
+				if !ok {
+					continue
+				}
+				fa, ok := st.Addr.(*ssa.FieldAddr)
+				if !ok {
+					continue
+				}
+				owner := ""
+				switch {
+				case w.isParserPtr(fa.X.Type()):
+					owner = "Parser"
+				case w.isLexerPtr(fa.X.Type()):
+					owner = "Lexer"
+				default:
+					continue
+				}
+				// stores into a value that was just allocated (a literal, Clone's copy) build a new Parser/Lexer
+				if _, isAlloc := fa.X.(*ssa.Alloc); isAlloc {
+					continue
+				}
+				k := owner + "." + fieldAddrName(fa)
+				if known[k] {
+					nknown++
+					continue
+				}
+				stores[fkey{owner, fieldAddrName(fa)}] = append(stores[fkey{owner, fieldAddrName(fa)}], st)
+			}
+		}
+	}
+	r.count("stores to the known state fields", nknown)
+	if nknown < 20 {
+		r.errorf("only %d stores to the known state fields of Parser/Lexer found", nknown)
+	}
+	r.ok(rule, "known state fields", "-", fmt.Sprintf("%d stores to Parser.Lexer/errors, Lexer.pos/Token/dotIdent/lastTokenKind", nknown))
+	var keys []fkey
+	for k := range stores {
+		keys = append(keys, k)
+	}
+	sort.Slice(keys, func(i, j int) bool { return keys[i].owner+keys[i].field < keys[j].owner+keys[j].field })
+	w.NoReturn()
+	for _, k := range keys {
+		construct := fmt.Sprintf("extra state field %s.%s", k.owner, k.field)
+		var problems []string
+		byFn := map[*ssa.Function][]*ssa.Store{}
+		for _, st := range stores[k] {
+			byFn[st.Parent()] = append(byFn[st.Parent()], st)
+		}
+		for fn, sts := range byFn {
+			// each store is field = field ± c
+			delta := map[*ssa.Store]int64{}
+			okShape := true
+			for _, st := range sts {
+				x, c := plusConst(st.Val)
+				ld, isL := isLoad(x)
+				if !isL {
+					okShape = false
+					break
+				}
+				lfa, isFA := ld.(*ssa.FieldAddr)
+				if !isFA || fieldAddrName(lfa) != k.field {
+					okShape = false
+					break
+				}
+				delta[st] = c
+			}
+			if !okShape && fn.Parent() != nil {
+				continue // a deferred closure putting a saved value back (recovery): not a mode switch
+			}
+			if !okShape {
+				problems = append(problems, fmt.Sprintf("%s assigns it a value that is not the old value plus a constant (a mode switch whose balance cannot be checked)", funcName(fn)))
+				continue
+			}
+			// net change per path: forward dataflow, ⊤ on disagreement
+			const top = int64(1) << 40
+			inD := map[*ssa.BasicBlock]int64{}
+			seenB := map[*ssa.BasicBlock]bool{fn.Blocks[0]: true}
+			work := []*ssa.BasicBlock{fn.Blocks[0]}
+			bad := ""
+			for len(work) > 0 && bad == "" {
+				b := work[0]
+				work = work[1:]
+				d := inD[b]
+				dead := w.deadAt(b)
+				alive := true
+				for i, in := range b.Instrs {
+					if st, ok := in.(*ssa.Store); ok {
+						if c, mine := delta[st]; mine && d != top {
+							d += c
+						}
+					}
+					if ret, ok := in.(*ssa.Return); ok {
+						if d != 0 {
+							bad = fmt.Sprintf("%s returns at %s with a net change of %+d", funcName(fn), w.pos(lastPos(ret.Block())), d)
+							if d == top {
+								bad = fmt.Sprintf("%s returns at %s with a net change that differs between the paths leading there", funcName(fn), w.pos(lastPos(ret.Block())))
+							}
+						}
+					}
+					if dead >= 0 && i == dead {
+						alive = false
+						break
+					}
+				}
+				if !alive {
+					continue
+				}
+				for _, s := range b.Succs {
+					if !seenB[s] {
+						seenB[s] = true
+						inD[s] = d
+						work = append(work, s)
+					} else if inD[s] != d && inD[s] != top {
+						inD[s] = top
+						work = append(work, s)
+					}
+				}
+			}
+			if bad != "" {
+				problems = append(problems, bad)
+			}
+		}
+		if len(problems) > 0 {
+			r.bad(rule, construct, w.pos(stores[k][0].Pos()), strings.Join(uniqSorted(problems), "; ")+": the mode stays on for whatever is parsed next (the rest of the statement, the following statements of a list)")
+		} else {
+			r.ok(rule, construct, w.pos(stores[k][0].Pos()), "changed by constant steps, net zero on every return path")
+		}
 	}
 }
